@@ -25,7 +25,7 @@ TOL = Fraction(1, 10**10)
 
 
 def gen(rng, tier):
-    n = 60 if tier == 'quick' else 1500
+    n = G.budget(60) if tier == 'quick' else 1500
     for _ in range(n):
         k = rng.randint(2, 5 if tier == 'quick' else 7)
         labs, akind = G.alphabet(rng, k=k)
